@@ -165,6 +165,67 @@ def check_canonical(ctx, name, psi, vec, case):
                 return
 
 
+def check_independent_copies(ctx, rng, psi, case):
+    """An MPS denotes the state it was built from: MPS(sites, Bs, SVs), copy() and extract_segment() hold their own tensors and
+    Schmidt values, so overwriting the caller's buffers / the values of the other object in place does not change the state."""
+    from tenpy.networks.mps import MPS
+    from vf import dense
+    L = psi.L
+    if L < 3 or max(psi.chi) < 2:
+        return
+    before = dense.finite_vector(psi).copy()
+    ent_before = np.asarray(psi.entanglement_entropy()).copy()
+
+    def unchanged(who, obj, v0, e0):
+        v1 = dense.finite_vector(obj)
+        e1 = np.asarray(obj.entanglement_entropy())
+        if not (np.linalg.norm(v1 - v0) <= 1e-12 * max(1., np.linalg.norm(v0))) or not (np.max(np.abs(e1 - e0)) <= 1e-12):
+            ctx.violation('MPS:shares-storage:%s' % who, 'state or entropies changed after the other object / the input buffers were '
+                          'overwritten in place', case)
+            return False
+        return True
+
+    mode = int(rng.integers(3))
+    ctx.count('independent_copies.checked')
+    if mode == 0:
+        form = psi.form[0]
+        f = {(0., 1.): 'B', (1., 0.): 'A'}.get(tuple(form), None)
+        if f is None or any(tuple(x) != tuple(form) for x in psi.form):
+            return
+        Bs = [psi.get_B(k, form=None).copy(deep=True) for k in range(L)]
+        SVs = [np.array(psi.get_SL(k), dtype=np.float64) for k in range(L)] + [np.array(psi.get_SR(L - 1), dtype=np.float64)]
+        new = MPS(psi.sites, Bs, SVs, bc=psi.bc, form=f, norm=psi.norm)
+        v0, e0 = dense.finite_vector(new).copy(), np.asarray(new.entanglement_entropy()).copy()
+        for S_ in SVs:
+            S_[...] = S_[::-1].copy() * 0.5
+        for B_ in Bs:
+            B_ *= 3.
+        unchanged('MPS(sites,Bs,SVs)-with-the-input-arrays', new, v0, e0)
+    elif mode == 1:
+        cp = psi.copy()
+        for k in range(1, L):
+            S_ = cp.get_SL(k)
+            S_[...] = S_[::-1].copy() * 0.5
+        for k in range(L):
+            B_ = cp.get_B(k, form=None)
+            B_ *= 3.
+        unchanged('copy()-with-the-original', psi, before, ent_before)
+    else:
+        first = int(rng.integers(0, L - 1))
+        last = int(rng.integers(first + 1, L))
+        src = psi.copy()
+        src.canonical_form()
+        v0, e0 = dense.finite_vector(src).copy(), np.asarray(src.entanglement_entropy()).copy()
+        seg = src.extract_segment(first, last)
+        for k in range(seg.L + 1):
+            S_ = seg.get_SL(k) if k < seg.L else seg.get_SR(seg.L - 1)
+            S_[...] = S_[::-1].copy() * 0.5
+        for k in range(seg.L):
+            B_ = seg.get_B(k, form=None)
+            B_ *= 3.
+        unchanged('extract_segment()-with-the-original', src, v0, e0)
+
+
 def expected_total_charge(sites, qtotal):
     return np.asarray(qtotal)
 
@@ -244,6 +305,7 @@ def build_from_full(ctx, rng, i):
     tc = psi.get_total_charge(only_physical_legs=True)
     if not np.array_equal(np.asarray(tc), qt):
         ctx.violation('from_full:get_total_charge', '%r expected %r' % (np.asarray(tc).tolist(), qt.tolist()), case)
+    check_independent_copies(ctx, rng, psi, case)
     psi = history(ctx, rng, psi, ref, case, 'from_full')
     ctx.sig(('from_full', kind, L, form, normalize), nontrivial=max(psi.chi) >= 2)
     if i % 150 == 0:
@@ -647,6 +709,21 @@ def build_segment(ctx, rng, i):
     rho_seg = np.einsum('amb,anb->mn', Tm, Tm.conj())
     if not (np.linalg.norm(rho - rho_seg) <= 1e-8):
         ctx.violation('extract_segment:reduced-density-matrix-differs', '|rho - rho_seg| = %g' % np.linalg.norm(rho - rho_seg), case)
+    # entropies of a segment: one value per bond 0..L_seg, the cuts first..last+1 of the full state
+    n_r = [1, 2, 0.5][int(rng.integers(3))]
+    ent = np.asarray(seg.entanglement_entropy(n=n_r))
+    exp_ent = []
+    for b in range(first, last + 2):
+        sv = dense.schmidt_values(vec, b) if 0 < b < L else np.ones(1)
+        p_ = sv[sv > 1e-14]**2
+        exp_ent.append(-np.sum(p_ * np.log(p_)) if n_r == 1 else np.log(np.sum(p_**n_r)) / (1. - n_r))
+    ctx.count('segment.entropies')
+    if ent.shape != (n + 1,) or not (np.max(np.abs(ent - np.asarray(exp_ent))) <= (1e-8 if n_r >= 1 else 1e-5)):
+        ctx.violation('segment.entanglement_entropy:differs-from-dense-state', 'n=%r segment %d..%d of %d: %r expected %r' %
+                      (n_r, first, last, L, ent.tolist(), exp_ent), case)
+    e_last = seg.entanglement_entropy(n=n_r, bonds=[n])
+    if not (abs(e_last[0] - exp_ent[-1]) <= (1e-8 if n_r >= 1 else 1e-5)):
+        ctx.violation('segment.entanglement_entropy:right-most-bond', '%r expected %r' % (e_last[0], exp_ent[-1]), case)
     # form conversions on a segment keep theta
     try:
         seg.convert_form(str(rng.choice(['A', 'C', 'G', 'Th'])))
@@ -856,6 +933,19 @@ def build_infinite(ctx, rng, i):
         return
     if 'complex_tensor_only_on_site' in case:
         return  # (only the canonicalisation itself is judged for tensors of different dtypes: see the recorded finding)
+    # entropies at explicitly given bonds, including bond L (= bond 0 of the next unit cell) and beyond
+    n_r = [1, 2, 0.5][int(rng.integers(3))]
+    bonds = [int(b) for b in rng.integers(0, 2 * L + 1, size=3)] + [L]
+    ent = np.asarray(psi.entanglement_entropy(n=n_r, bonds=bonds))
+    ctx.count('infinite.entropy_at_given_bonds')
+    for b, e in zip(bonds, ent):
+        p_ = np.asarray(psi._S[b % L])**2
+        p_ = p_[p_ > 1e-30]
+        exp_e = -np.sum(p_ * np.log(p_)) if n_r == 1 else np.log(np.sum(p_**n_r)) / (1. - n_r)
+        if not (abs(e - exp_e) <= 1e-9):
+            ctx.violation('infinite.entanglement_entropy:given-bond', 'n=%r bond %d of a unit cell of %d sites: %r, from the stored Schmidt '
+                          'values %r' % (n_r, b, L, e, exp_e), case)
+            return
     # form conversions and get_theta across the unit-cell boundary keep window density matrices
     n = int(rng.integers(1, 4))
     i0 = int(rng.integers(0, 2 * L))
